@@ -25,7 +25,7 @@ Independent sub-agents were given only the text of one property and a scratch wo
 for two realistic changes each that break it, compile, pass the 42 tests and need something specific
 to manifest; six and a half rounds (m1/m2; m3/m4 with the first round's locations excluded; m5/m6 with all earlier ones
 excluded and a hint at untouched code; m7/m8 and m9/m10 with a hint at shared helper code; m11/m12 for fifteen
-properties, those whose checks had missed most first; a last round of twenty - m11/m12 for C06 C09 C14 C18 C20, m13/m14 for C01 C03 C10 C12 C13 - of which three were first missed), **{n} changes** in all. Every change kept under
+properties, those whose checks had missed most first; a last round of thirty-six - m11/m12 for C06 C09 C14 C18 C20, m13/m14 for the other fifteen properties (one each for C02 C07 C11 C16) - of which seven were first missed by the check of their own property), **{n} changes** in all. Every change kept under
 `/verif/seeded/<id>/` (patch, demonstration, README by the sub-agent, `meta.json`) was re-confirmed
 here (`tools/confirm_mutant.sh`: tests pass with it, the demonstration fails with it and passes
 without it) before being run against the checks (`tools/mutlab.sh`: applied to a scratch copy of the
